@@ -646,6 +646,10 @@ def is_shape_obligation(r):
     code changed shape, which a harmless refactoring also does.  Per-variant obligations on emitted code (`:v<k>:` in the name), SMT
     obligations, determinism findings, render checks and evaluated tables are not shape obligations."""
     import re as _re
+    if r.name.endswith(":render-safe") or ":render-safe:" in r.name:
+        # the fragment could not be rendered symbolically (an undefined name inside a region cut out of its template, a filter the proxies do not
+        # model ...): a limit of the fragment renderer unless the real generator fails too - and then the native corpus supplies the failing input
+        return True
     if r.kind not in SHAPE_KINDS and r.backend not in ("ast", "jinja-ast"):
         return False
     if _re.search(r":v\d+(:|$)", r.name):
